@@ -192,9 +192,23 @@ def _ptg_arms(F, name):
         return None, {}
     ms = sorted(walk_k(fn.body, "Match"), key=lambda m: -len(m["arms"]))
     out = {}
+    from .kit import specialise
+    sc = None
+    if ms:
+        pe = peel(ms[0]["scrut"])
+        sc = path_local(pe) if isinstance(pe, dict) and pe.get("k") == "Path" else None
     for a in ms[0]["arms"] if ms else []:
         ks, _ = pat_keys(a["pat"])
         ints = sorted(k[1] for k in ks if k[0] == "int")
+        # an arm shared by several token classes (the three data-type variants b, b+0x20, b+0x40 form one class) is
+        # split per class and specialised: an inner `match ptg` picks the class's own code
+        groups = {}
+        for v in ints:
+            groups.setdefault(v if v < 0x20 else 0x20 + (v & 0x1F), []).append(v)
+        if len(groups) > 1 and sc is not None and all(b >= 0x20 for b in groups):
+            for b, vs in groups.items():
+                out[tuple(sorted(vs))] = dict(a, body=specialise(a["body"], sc[1], vs[0], pat_keys))
+            continue
         if ints:
             out[tuple(ints)] = a
         else:
@@ -228,37 +242,49 @@ def _role(e):
     return None
 
 
-def stack_events(node, out_name="formula"):
-    """source-order sequence of operations on the operand stack (Vec<usize>) and on the output String"""
-    ev = []
-
+def stack_events(node, out_name="formula", canonical=False):
+    """source-order sequence of operations on the operand stack (Vec<usize>) and on the output String.  With
+    `canonical`, the alternatives of an `if` / `match` are ordered by their own event sequences instead of by source
+    position, so that swapping the branches of a conditional (or re-ordering match arms) gives the same sequence."""
     def rec(n):
         if isinstance(n, list):
+            out = []
             for x in n:
-                rec(x)
-            return
+                out += rec(x)
+            return out
         if not isinstance(n, dict):
-            return
-        if n.get("k") == "MethodCall":
-            rec(n["recv"])
-            rec(n["args"])
+            return []
+        k = n.get("k")
+        if k == "MethodCall":
+            ev = rec(n["recv"]) + rec(n["args"])
             r = _role(n["recv"])
             if r == "stack" and n["name"] in ("windows", "iter", "iter_mut", "len", "is_empty", "as_slice", "get", "first", "chunks", "into_iter", "as_mut_slice"):
                 pass        # reads and traversals do not change the discipline
             elif r == "stack":
                 ev.append("stack." + n["name"])
             elif r == "out:" + out_name:
-                nm = "append" if n["name"] in _APPEND else n["name"]
-                if not (nm == "append" and ev and ev[-1] == "out.append"):
-                    ev.append("out." + nm)
-            return
+                ev.append("out." + ("append" if n["name"] in _APPEND else n["name"]))
+            return ev
+        if canonical and k == "If":
+            alts = [rec(n["then"]), rec(n.get("els"))]
+            return rec(n["cond"]) + [e for a in sorted(alts) for e in a]
+        if canonical and k == "Match" and n.get("src") not in ("ForLoopDesugar", "TryDesugar"):
+            alts = [rec(a.get("guard")) + rec(a["body"]) for a in n.get("arms", [])]
+            return rec(n["scrut"]) + [e for a in sorted(alts) for e in a]
+        ev = []
         for key, v in n.items():
             if key in ("span", "res", "callee"):
                 continue
             if isinstance(v, (dict, list)):
-                rec(v)
-    rec(node)
-    return ev
+                ev += rec(v)
+        return ev
+    flat = rec(node)
+    out = []
+    for e in flat:
+        if e == "out.append" and out and out[-1] == "out.append":
+            continue
+        out.append(e)
+    return out
 
 
 def r_sib_ptg(ctx, rep):
@@ -284,7 +310,7 @@ def r_sib_ptg(ctx, rep):
         ea, eb = stack_events(A[ks]["body"]), stack_events(B[ks]["body"])
         if tag in SIB_PTG_EXCEPTIONS:
             rep.holds("R-SIB-PTG", key, loc(A[ks]), "documented difference: " + SIB_PTG_EXCEPTIONS[tag], nontrivial=False)
-        elif ea == eb:
+        elif ea == eb or stack_events(A[ks]["body"], canonical=True) == stack_events(B[ks]["body"], canonical=True):
             rep.holds("R-SIB-PTG", key, loc(A[ks]), "both decoders: %s" % (" ; ".join(ea) or "no stack/output effect"), nontrivial=bool(ea))
         else:
             rep.violation("R-SIB-PTG", key, "%s / %s" % (loc(A[ks]), loc(B[ks])),
@@ -336,10 +362,27 @@ def r_cellpos(ctx, rep):
             rep.anchor_missing("R-CELLPOS", name)
             continue
         found = False
+        def unok(t):
+            # `Ok(x)` (the position computed by a fallible helper) -> x
+            t = unwrap(t) if t is not None else None
+            if isinstance(t, dict) and t.get("k") == "Call" and (callee(t) or "").endswith("Result::Ok") and len(t.get("args", [])) == 1:
+                return unwrap(t["args"][0])
+            return t
+        cands = []
         for n in walk_k(fn.body, "Let"):
-            init = unwrap(n.get("init")) if n.get("init") is not None else None
+            init0 = unwrap(n.get("init")) if n.get("init") is not None else None
+            if not init0:
+                continue
+            if init0.get("k") == "Match" and init0.get("src") != "TryDesugar":
+                cands.append((n, init0))
+            else:
+                # the computation sits inside the initialiser (a helper inlined at `let pos = helper(..)?;`)
+                for m_ in walk_k(init0, "Match"):
+                    if m_.get("src") not in ("TryDesugar", "ForLoopDesugar"):
+                        cands.append((n, m_))
+        for n, init in cands:
             # `if let Some(r) = attr { A } else { B }` (normalised to a match) or `match attr { Some(r) => A, None => B }`
-            if not init or init.get("k") != "Match" or len(init.get("arms", [])) != 2:
+            if len(init.get("arms", [])) != 2:
                 continue
             some = [a for a in init["arms"] if a["pat"].get("k") == "TupleStruct" and (a["pat"].get("res", {}).get("def") or "").endswith("Option::Some")]
             other = [a for a in init["arms"] if a not in some]
@@ -351,7 +394,7 @@ def r_cellpos(ctx, rep):
             found = True
             then = unwrap(init["then"])
             tail = then["block"].get("expr") if then.get("k") == "BlockExpr" else then
-            tail = unwrap(tail) if tail is not None else None
+            tail = unok(tail)
             ok, why = False, "unrecognised form of the position expression"
             if tail is not None and tail.get("k") == "Tup" and len(tail["es"]) == 2:
                 comps = []
@@ -374,6 +417,7 @@ def r_cellpos(ctx, rep):
                 ok = True
             els = unwrap(init["els"]) if init.get("els") is not None else None
             etail = unwrap(els["block"].get("expr")) if els and els.get("k") == "BlockExpr" and els["block"].get("expr") is not None else els
+            etail = unok(etail)
             eok = False
             if etail is not None and etail.get("k") == "Tup" and len(etail["es"]) == 2:
                 fcs = [field_chain(c) for c in etail["es"]]
@@ -538,6 +582,10 @@ def r_dbcs_progress(ctx, rep):
             else:
                 in_then = any(x is inner for x in walk(guard["then"]))
                 v = _implied_by_positive(guard["cond"], lid)
+                if not in_then and v is not None:
+                    # the step sits in the else branch (`if len == 0 { break } else { step }`): the guard is the negation
+                    v = not v
+                    in_then = guard.get("els") is not None and any(x is inner for x in walk(guard["els"]))
                 if not in_then or v is not True:
                     problems.append("the guard of the continue_record() step is not implied by the loop condition (it has a conjunct beyond the remaining-character count): an iteration that decoded nothing and still owes characters repeats with identical state")
         if problems:
@@ -882,7 +930,7 @@ def _pattern_sources(fn):
             out[pat["lid"]] = ("init", init)
             if pat.get("sub"):
                 pair(pat["sub"], init)
-        elif pat_k == "Tuple" and init is not None and unwrap(init).get("k") == "Tup" and len(unwrap(init)["es"]) == len(pat["pats"]):
+        elif pat_k == "Tuple" and isinstance(init, dict) and unwrap(init).get("k") == "Tup" and len(unwrap(init)["es"]) == len(pat["pats"]):
             for p, e in zip(pat["pats"], unwrap(init)["es"]):
                 pair(p, e)
         elif pat_k == "TupleStruct" and len(pat.get("pats", [])) == 1 and (pat.get("res", {}).get("def") or "").endswith("Option::Some"):
@@ -1731,7 +1779,10 @@ def r_ovbachunk(ctx, rep):
             for a in anc:
                 if a.get("k") == "If":
                     lids_ = {path_local(p)[1] for p in walk_k(a["cond"], "Path") if path_local(p)}
-                    leaving, cont = (a["then"], a.get("els")) if a.get("src") != "EarlyExitNeg" else (a.get("els"), a["then"])
+                    # the branch that holds the read is the continuation, the other one must leave the loop
+                    # (`if exhausted { break } rest`, `if !exhausted { rest } else { break }`, `while !exhausted { rest }`)
+                    in_then = any(x is st for x in walk(a["then"]))
+                    leaving, cont = (a.get("els"), a["then"]) if in_then else (a["then"], a.get("els"))
                     if size_lids & lids_ and len(lids_) >= 2 and leaving is not None and any(x.get("k") == "Break" for x in walk(leaving)) and cont is not None and any(x is st for x in walk(cont)):
                         guard = a
             if guard is not None:
